@@ -32,12 +32,49 @@ Legit == {"length", "push", "pop", "keys", "values", "entries", "parse", "string
           "trimEnd", "replaceAll", "create", "assign", "freeze", "isArray", "from", "of", "now", "toJSON", "isFrozen",
           "getPrototypeOf", "setPrototypeOf", "defineProperty", "getOwnPropertyNames", "getOwnPropertyDescriptor"}
 
+\* ---- probes: the values built-in code hands to script code, and results with optional parts ---------------------------
+\* (the property: "every value a script can hold"; "host functions run ... with JavaScript values as arguments")
+\* cb     : callback-taking array methods x receivers: this and every argument of every callback call
+\* rxcb   : function replacers: pattern (with groups that may not participate) x subject x method
+\* rxres  : match results: every element / member of what exec, match, split, search, test return
+\* conv   : conversion methods and accessors run by operators and built-ins: this and arguments
+\* callf  : call forms: this and arguments as seen by the callee
+\* none   : a host function that returns nothing, used wherever a built-in consumes a callback's result
+\* json   : reviver / replacer / toJSON calls
+CbApis == {"forEach", "map", "filter", "some", "every", "find", "findIndex", "reduce", "reduceRight", "sort"}
+CbRecvs == {"[1,2]", "[undefined,null,3]", "['a',[1],{k:1}]", "[NaN,-0]", "Object.keys({a:1,b:2})", "'a-b'.split('-')"}
+CbRets == {"undefined", "true", "0"}
+RxPats == {"(a)|(b)", "x(y)?z", "(?:(a)|b)+", "(a)?(b)?", "(?:x(a))?b|(a)", "()", "a(?=(b))?", "(a)|b"}
+RxSubjs == {"ab", "xz", "b", "", "xyzxz"}
+RxCbApis == {"replace", "replaceAll", "replace_strpat"}
+RxResApis == {"exec", "match", "match_g", "split", "split_lim", "search", "test", "exec_g_twice", "exec_y"}
+ConvUses == {"plus", "concat", "join", "sort_default", "compare", "index", "String", "Number", "getter", "setter",
+             "defprop_get", "defprop_set", "in_loop"}
+CallForms == {"plain", "method", "call_undef", "call_null", "call_prim", "call_obj", "apply_undef", "apply_arr", "apply_none",
+              "bind", "bind_args", "new", "new_args", "arrow"}
+NoneUses == {"result", "call", "apply", "bind", "map", "forEach", "filter", "reduce", "sort", "find", "replace", "replaceAll",
+             "stringify", "parse", "new", "getter", "setter", "valueOf", "toString", "toJSON", "nested_arg", "in_array", "in_object",
+             "conditional", "return"}
+JsonUses == {"reviver", "replacer_fn", "replacer_arr", "toJSON", "toJSON_nested", "indent"}
+Probes == [fam : {"cb"}, api : CbApis, recv : CbRecvs, ret : CbRets]
+          \cup [fam : {"rxcb"}, api : RxCbApis, pat : RxPats, subj : RxSubjs]
+          \cup [fam : {"rxres"}, api : RxResApis, pat : RxPats, subj : RxSubjs]
+          \cup [fam : {"conv"}, use : ConvUses]
+          \cup [fam : {"callf"}, form : CallForms]
+          \cup [fam : {"none"}, use : NoneUses]
+          \cup [fam : {"json"}, use : JsonUses]
+ProbePick(q) == \/ Tier # "quick"
+                \/ q.fam \notin {"cb", "rxcb", "rxres"}
+                \/ q.fam = "cb" /\ (q.ret = "undefined" \/ q.recv = "[1,2]")
+                \/ q.fam \in {"rxcb", "rxres"} /\ (q.subj \in {"ab", "xz"} \/ q.pat \in {"(a)|(b)", "x(y)?z"})
+
 VARIABLES ph, cur, rec_i
 vars == <<ph, cur, rec_i>>
 EnumInit == ph = "start" /\ cur = <<>> /\ rec_i = 0
 EnumNext == /\ ph = "start" /\ UNCHANGED rec_i
             /\ \/ \E r \in Receivers : \E f \in Forms : ph' = "case" /\ cur' = [recv |-> r, form |-> f]
                \/ ph' = "case" /\ cur' = [legit |-> Legit]
+               \/ \E q \in Probes : ProbePick(q) /\ ph' = "case" /\ cur' = [probe |-> q]
 EnumEmit == ph = "start" \/ PrintT(ToJson(cur))
 
 \* ---- Judge ------------------------------------------------------------------------------------
